@@ -104,12 +104,17 @@ func runC10(c *Ctx) {
 	}
 	c.r.min["C10.exhaustive"] = len(wrappers)
 
-	// ---- parser side of the table
+	// ---- parser side of the table. The grammar functions are structural anchors (rules_ag5.go: told apart by the oneof
+	// wrappers they build, today's names being only the first guess), so renaming them or the parser type keeps the check.
+	ps := c.a.PS
 	parserOK := true
-	for _, pn := range []string{"parseAndExpr", "parseOrExpr", "parseSimpleExpr"} {
-		pf := c.w.method(pkgParser, "parser", pn)
+	for _, role := range []struct {
+		label string
+		fn    *ssa.Function
+	}{{"parseAndExpr", ps.ParseAnd}, {"parseOrExpr", ps.ParseOr}, {"parseSimpleExpr", ps.ParseSimple}} {
+		pn, pf := role.label, role.fn
 		if pf == nil {
-			c.r.undecided("C10.parens", "parser: "+pn, "parser function not found")
+			c.r.undecided("C10.parens", "parser: "+pn, "parser function not found (neither by the expression wrappers it builds nor by its name)")
 			parserOK = false
 			continue
 		}
@@ -122,10 +127,10 @@ func runC10(c *Ctx) {
 			if f == nil || c.w.pkgPathOf(f) != pkgParser || f.Signature.Results().Len() != 1 || !typeIs(f.Signature.Results().At(0).Type(), pkgProto, "Query_Expression") {
 				return
 			}
-			switch f.Name() {
-			case "parseSimpleExpr", "parseComparison":
-			case "parseGroupedExpr":
-				if pn != "parseSimpleExpr" {
+			switch {
+			case f == ps.ParseSimple || (f == ps.ParseComparison && f != nil):
+			case f == ps.ParseGrouped && f != nil:
+				if pf != ps.ParseSimple {
 					parserOK = false
 				}
 			default:
@@ -1118,12 +1123,11 @@ func isLenOfChain(v, src ssa.Value) bool {
 // lexInputRule: the text the lexer scans is exactly the string handed to ParseQuery — no normalisation, trimming or
 // replacement on the raw text (which would also rewrite the contents of quoted values).
 func lexInputRule(c *Ctx, rule string) {
-	lexT := c.w.namedType(pkgParser, "lexer")
-	in := structFieldNamed(lexT, "input")
-	if in == nil {
-		c.r.undecided(rule, "<anchor>", "lexer.input not found")
+	// the scanned text: the string field of the lexer that its rune-reading method decodes from (rules_ag5.go)
+	if !c.a.PS.need(rule, "lexer", "lexer input") {
 		return
 	}
+	in := c.a.PS.InputF
 	n := 0
 	for _, fn := range c.w.ModFuncs {
 		if c.w.pkgPathOf(fn) != pkgParser {
